@@ -1069,9 +1069,32 @@ def lazy_stream(ctx):
             return
 
 
+KNOWN_CROSS_SITE = "persim/landscapes/auxiliary.py:_p_norm-sign-crossing-intercept-form"
+
+
+def known_cross_probe(ctx):
+    """the listed finding: on a segment that crosses the axis `_p_norm` re-evaluates the end values through the intercept
+    form slope*x + (y0 - slope*x0), which rounds at |slope*x| although the end values y0, y1 are at hand.  Listed input:
+    critical pairs [[x0, 3e-5], [x0 + 1e-4, -7e-5]] with x0 = 2^30 + 0.5, p = 1; exact integral of |f| over the segment =
+    (x1 - x0) * (y0^2 + y1^2) / (2 |y1 - y0|) in rationals of the float inputs."""
+    from fractions import Fraction as F
+    x0 = 2.0 ** 30 + 0.5
+    x1, y0, y1 = x0 + 1e-4, 3e-5, -7e-5
+    def fails():
+        from persim.landscapes import PersLandscapeExact
+        v = float(PersLandscapeExact(critical_pairs=[[[x0, y0], [x1, y1]]], hom_deg=0).p_norm(1))
+        ex = (F(x1) - F(x0)) * (F(y0) ** 2 + F(y1) ** 2) / (2 * abs(F(y1) - F(y0)))
+        rel = abs(F(v) - ex) / ex
+        return rel > F(1, 10 ** 9), ("PersLandscapeExact(critical_pairs=[[[2^30+0.5, 3e-5], [2^30+0.5+1e-4, -7e-5]]]).p_norm(1) = %r, "
+                                     "exact %r (%.1e of the value)" % (v, float(ex), float(rel)))
+    common.known_probe(ctx, "C10", KNOWN_CROSS_SITE, fails,
+                       {"kind": "known_probe", "critical_pairs": [[[x0, y0], [x1, y1]]], "p": 1})
+
+
 def laws(ctx):
     r = ctx.rng
     kf_ovf, kf_stab = known_replays(ctx)
+    known_cross_probe(ctx)
     if len(ctx.violations) <= 5:
         stream_bigp(ctx, kf_ovf)
     for i in range(ctx.n(800, 18000)):
